@@ -1,12 +1,72 @@
 CFG = {
     "modules": ["Parsley.Props.C03"],
-    "theorems": [],
-    "partial": {},
-    "n": {"quick": 300, "thorough": 5000},
+    "theorems": [
+        "Parsley.C03.identity_mismatch_rejected", "Parsley.C03.identity_mismatch_rejected_second",
+        "Parsley.C03.firstPass_reject_lifts", "Parsley.C03.firstPass_direct",
+        "Parsley.C03.load_defines_exactly_partial", "Parsley.C03.tiny_reads",
+        "Parsley.C03.load_never_panics_partial", "Parsley.LoaderNoPanic.parseData_no_panic",
+        "Parsley.LoaderNoPanic.parseIndirect_inv", "Parsley.LoaderNoPanic.xrefLoop_ok", "Parsley.LoaderNoPanic.parseObjects_no_panic",
+        "Parsley.C03.hybrid_hidden_gen0_witness",
+    ],
+    "partial": {
+        "load_defines_exactly_partial":
+            "FULL STATEMENT WANTED: for every document d and layout l, parseData (renderDoc d l) = ok (defs = d.objs, root = d.root). "
+            "PROVED: the object-loading stage (parse_objects) for direct objects - for all entry lists with distinct identifiers whose offsets "
+            "hold objects that read as (id, gen) -> value in every context not yet defining them (premise ReadsAt, shown satisfiable by tiny_reads), "
+            "parse_objects started from the empty context defines exactly those identifiers with those values and nothing else. "
+            "NOT closed by a theorem (decided by the correspondence run against the oracle DocSpec.resolve on generated files, and by kernel-evaluated "
+            "whole-model runs on one concrete file per layout): the composition with header scan / leading-garbage view / backward scans / startxref / "
+            "trailer and with the xref decoders (C13: table, stream, /W, /Index; C06/C07: Flate + PNG-Up), the premise ReadsAt for arbitrary spellings "
+            "(C02's spell_parse is itself partial), and the layouts: object streams, hybrid files, forward-referenced /Length (second pass).",
+        "load_never_panics_partial":
+            "FULL STATEMENT WANTED: for all inputs parseData never reaches a panic site. PROVED: for every input below 2^62 bytes no panic site of "
+            "the loader's glue or of any composed parser (object, indirect object, xref table, xref stream incl. /Index and /W arithmetic, object "
+            "stream incl. set_cursor address arithmetic, the /Prev loop's fuel, both passes with the context invariant cur<=max and sorted "
+            "definitions) is reachable, PROVIDED the stream decoders neither panic nor return more than 2^63 bytes (hypothesis DecodersTotal about "
+            "Filters.applyFilter Loader.ext: the executable zlib inflate model can end in its own fuel outcome, hex2bin has an unreachable index "
+            "site; discharging these is C06/C07 material). The real decoders are exercised by the correspondence run (Flate'd xref and object streams).",
+        "(known finding)": "hybrid files whose hidden objects have generation-0 free entries lose those objects (#31): hybrid_hidden_gen0_witness; "
+            "same root cause as C04-generation-changed",
+    },
+    "n": {"quick": 1000, "thorough": 30000},
     "exhaustive": {"quick": False, "thorough": False},
     "shrink": False,
-    "rule": "tbd",
-    "trusted_base": COMMON_TB,
-    "assumptions": [],
+    "rule": "corpus (hand-built: tiny classic / garbage / two objects / identity mismatch / non-reference root / startxref out of range / no magic / "
+            "no startxref / forward /Length / missing holder / minimal xref stream; smallest generated instances of the known finding) + per seed one "
+            "document from the spec-side generator (Spec/Doc.lean renderHistory with one revision): 2-6 user objects with values from the C02 generator "
+            "spelled by Spelling.spell (random choices), generations 0-2, some streams with random data and extra entries, /Length direct or by reference "
+            "with the holder numbered below or above the stream (second pass), random file order, padding of white space / comments (incl. a comment "
+            "containing %%EOF), xref offset at the padding or at the number, optional binary header comment, leading garbage 0-39 bytes without '%'; "
+            "6 layout families by case index: classic table (subsection cuts 0-3, three entry terminators, leading zeros) x2, cross-reference stream "
+            "(w0 0-2, extra widths up to 4 bytes, /Index partition or omitted, optional Flate stored blocks, optional PNG-Up predictor, rotated dictionary "
+            "order) x2, hybrid (table + /XRefStm, hidden generation 65535), mixed; with stream/hybrid layouts about half of the eligible objects go into "
+            "1-2 object streams (optionally Flate'd, gaps of white space between members); every 4th document again with the offsets of two in-use "
+            "entries exchanged (must be rejected); every 2nd with one corruption (truncate, alter/delete/insert a byte, replace a number by an extreme "
+            "one, cut the middle) judged for correspondence and no panic. Oracle = DocSpec.resolve on what the encoder wrote (never the model); it also "
+            "re-derives the file from the seed and compares the bytes. non-trivial = document/history of >= 300 bytes, any mismatch or corpus case, a "
+            "corrupted file of >= 200 bytes; distinct by case hash",
+    "trusted_base": COMMON_TB + [
+        "modelled, not verified: ParseBuffer views as byte lists with a view-relative cursor (C17), BTreeMap/BTreeSet as ordered association lists / membership lists",
+        "reused component models with their own correspondence checks: Prim/Obj (C02/C15/C16), Indirect (C05), Xref (C13), ObjStm (C14), Filters/Inflate (C06), Predictor (C07)",
+        "external crates behind the decoders (flate2/zlib, ascii85, binascii) are modelled, DCTDecode is treated as always failing on loader data",
+        "hook (feature verif): exit_log! unwinds with VerifExit instead of process::exit(1); PDFObjContext::verif_ids lists the defined identifiers",
+    ],
+    "assumptions": [
+        "the harness needs the hook patch pending_fixes/C03-00-hook-unwinding-exit-log.patch applied to /repo",
+        "generated documents keep the magic '%PDF-' out of the leading garbage and the keywords startxref / trailer out of object values (they would be found by the scans)",
+        "a PNG predictor over zero rows (empty hybrid cross-reference stream) is rejected by the predictor code; the generator keeps such streams plain",
+    ],
 }
-LEVEL = {"design_ref": "DESIGN.md 3.C03/C04", "technique": "tbd", "text": "tbd"}
+LEVEL = {
+    "design_ref": "DESIGN.md 3.C03/C04",
+    "technique": "Lean 4 theorems over an executable model of the loader composing the component models of C02/C05/C13/C14/C06/C07 + "
+                 "differential correspondence with the real parse_data (in-process, unwinding exit_log! hook) + declarative oracle (newest revision that "
+                 "mentions a number wins) on documents rendered by an independent encoder",
+    "text": "Executable model of parse_data / parse_xref_section / parse_xref_stream / get_xref_info / info_from_xref_entries / parse_objects written "
+            "line by line after the code (same exits; panics of the component parsers propagated). Machine-checked for all inputs: an object whose "
+            "identifier differs from its cross-reference entry is rejected (both passes); the object-loading stage defines exactly the entries' "
+            "identifiers with the values read at their offsets (direct objects; premise shown satisfiable). The full statement (all layouts, end to "
+            "end) is decided on the real code by the oracle over generated documents covering table / stream / hybrid, /W, /Index, Flate + PNG-Up, "
+            "object streams, direct and referenced /Length, leading garbage; model and code agree on every generated and corrupted file. Known "
+            "finding #31 (hybrid, hidden object with a generation-0 free entry is lost) is reproduced, classified on the case and witnessed by a theorem.",
+}
